@@ -3,7 +3,7 @@
 SPECIFICATION Spec
 CONSTANTS
   Mode = "start"
-  TPs = {1, 2, 3}
+  TPs = {2, 4, 6}
   Nows = {}
   Ids = {0, 1}
   CancelIds = {1}
